@@ -71,7 +71,7 @@ theorem spellTxt_mem_unary {o : Nat} (ho : o < T.ops.length) (har : (T.row o).ar
 /-- the lexer reads a bracketed or unbracketed operand text -/
 theorem lex_wrap (hlp : S.contains [40] = true) (hrp : S.contains [41] = true)
     (hsafeL : safeBeforeTerm T S [40] = true)
-    (hsafeR : ∀ t ∈ S, [41].isPrefixOf t = true → t = [41] ∨ (t.drop 1).headD 0 ≠ 32 ∧ (t.drop 1).headD 0 ≠ 41)
+    (hsafeR : ∀ t ∈ S, [41].isPrefixOf t = true → t = [41] ∨ isWs ((t.drop 1).headD 0) = false ∧ (t.drop 1).headD 0 ≠ 41 ∧ (t.drop 1).headD 0 ≠ 44)
     {txt : List Nat} {toks : List Tok} (ht : Steps S txt toks Follow) (hs : ∀ rest, TextStart T (txt ++ rest)) (b : Bool) :
     Steps S (wrapT b txt) (wrap b toks) Follow ∧ ∀ rest, TextStart T (wrapT b txt ++ rest) := by
   cases b with
@@ -84,7 +84,7 @@ theorem lex_wrap (hlp : S.contains [40] = true) (hrp : S.contains [41] = true)
     have hR : Steps S [41] [.rp] (SafeAfter S [41]) := by
       have := steps_symbol (S := S) (w := [41]) (by decide) hrp
       simpa [tokOfTerminal] using this
-    have h2 := Steps.append ht (hR.mono (fun r hr => safe_rp hsafeR hr)) (fun rest _ => Or.inr ⟨rest, Or.inr rfl⟩)
+    have h2 := Steps.append ht (hR.mono (fun r hr => safe_rp hsafeR hr)) (fun rest _ => follow_rp rest)
     have h3 := Steps.append hL h2 (fun rest _ => safe_beforeTerm hsafeL (by simpa using hs (41 :: rest)))
     simpa [wrapT, wrap] using h3
 
@@ -96,8 +96,6 @@ variable {S : List (List Nat)} {T : Table} {L : Ladder}
 
 theorem notId_blank (r : List Nat) : NotIdNext (32 :: r) := by
   intro c r' h; cases h; decide
-
-theorem follow_blank (r : List Nat) : Follow (32 :: r) := Or.inr ⟨r, Or.inl rfl⟩
 
 theorem kw_steps {w : List Nat} {tok : Tok} (hid : idShaped w = true) (hc : S.contains w = true)
     (htok : tokOfTerminal S w = tok) : Steps S w [tok] NotIdNext := by
